@@ -346,3 +346,33 @@ def sh_visit(ctx, out, name, attr=None, rule="SH.visit"):
                         out.viol(rule, "%s|%s|missing-attr-not-continue" % (rule, name), ctx.where(body, t["span"]),
                                  "a block without `%s` does not simply continue with the next block of the file: blocks after it would not be validated" % attr)
     out.inst(rule + "." + name, n, 2, note="block/file loops iterate the collections directly; missing attribute -> continue")
+
+
+WORK_ITEMS = re.compile(r"unidiff::(PatchedFile|Hunk|Line)\b|blockwatch::blocks::(Block|BlockWithContext|FileBlocks)\b|blockwatch::language_parsers::Comment\b|blockwatch::tag_parser::\w+|blockwatch::validators::Violation\b|dyn blockwatch::validators::\w+|tree_sitter::(Node|QueryMatch|QueryCapture)\b")
+
+
+def sh_traverse(ctx, out, rule="SH.traverse", bodies=None):
+    """Traversals of the work collections are complete: no truncating iterator adaptor (take_while,
+    map_while, take, skip, step_by, find, position, ...) is applied to an iterator over the diff's
+    files / hunks / lines, the comments, tags, blocks, validators or violations. (Ordered searches over
+    `LineChange` lists are the one legitimate use; C01.search decides their monotonicity.)"""
+    n = 0
+    sites = []
+    for b in (bodies or ctx.reachable_bodies()):
+        if b.promoted is not None:
+            continue
+        for bi, t in b.calls():
+            nm = callee_name(t)
+            if not re.search(r"Iterator>?::\w+$|Itertools::\w+$", nm):
+                continue
+            it = (t.get("arg_tys") or [""])[0]
+            if not WORK_ITEMS.search(it):
+                continue
+            n += 1
+            if TRUNCATING.search(nm) or re.search(r"Itertools::(take_while_ref|take_while_inclusive|dedup|unique|dedup_by|unique_by)$", nm):
+                m = WORK_ITEMS.search(it).group(0)
+                out.viol(rule, "%s|%s|%s|%s" % (rule, b.id, nm.split("::")[-1], m.split("::")[-1]), ctx.where(b, t["span"]),
+                         "`%s` is applied to an iterator over `%s`: the traversal can stop early or skip elements, so some files / blocks / lines are never examined (depending on their order)" % (nm.split("::")[-1], m))
+            elif len(sites) < 6:
+                sites.append("%s:%s" % (b.name, nm.split("::")[-1]))
+    out.inst(rule, n, 40, sites, note="iterator adaptor calls over work collections, none truncating")
